@@ -78,4 +78,16 @@ def respFromBencode (body : Bytes) : Except RErr RespM :=
 def peerAddrs (r : RespM) : List (Bytes × Bytes) :=
   r.peers.map fun p => (p.ip ++ 58 :: natDec p.port, p.peerId)
 
+/-- `reqwest::StatusCode::is_success`. -/
+def statusSuccess (status : Nat) : Bool := decide (200 ≤ status) && decide (status < 300)
+
+/-- One answered announce as `TrackerClient::parse_resp` sees it: the HTTP status and the body **bytes**. `some m` is
+    sent to the manager as `TrackerCmd::TrackerResp`, `none` as `TrackerCmd::Fail` (and the announce is repeated). -/
+def exchange (status : Nat) (body : Bytes) : Option RespM :=
+  if statusSuccess status then
+    match respFromBencode body with
+    | .ok m => some m
+    | .error _ => none
+  else none
+
 end Rdest.Tracker
